@@ -7,7 +7,7 @@ from ..report import Result, MachineryError
 NEEDS = ("dev",)
 
 
-def sched_req(certs, n_ca=1, accounts=("acc0",), contacts=None, key_type=None, script=None, warmup=None, after_warmup=None, name="s"):
+def sched_req(certs, n_ca=1, accounts=("acc0",), contacts=None, key_type=None, script=None, warmup=None, after_warmup=None, name="s", pending=False):
     """certs: list of (account, endpoint index)."""
     def doc_for(contacts_, key_type_):
         doc = {
@@ -25,7 +25,8 @@ def sched_req(certs, n_ca=1, accounts=("acc0",), contacts=None, key_type=None, s
             doc["certificate"].append({"endpoint": "ep%d" % e, "account": a, "identifiers": [cfg.ident("c%d.example" % i)], "key_type": "ecdsa-p256", "hooks": [],
                                        "kp_reuse": True})
         return doc
-    req = {"op": "sched", "cas": [{"authz_status": {"*": "valid"}, "cert_lifetime_s": 86400, "name": "ca%d" % i} for i in range(n_ca)],
+    ca_cfg = {"cert_lifetime_s": 86400} if pending else {"authz_status": {"*": "valid"}, "cert_lifetime_s": 86400}
+    req = {"op": "sched", "cas": [dict(ca_cfg, name="ca%d" % i) for i in range(n_ca)],
            "files": {"main.toml": cfg.to_toml(doc_for(contacts, key_type))}, "schedule": [], "script": script or []}
     if warmup is not None:
         req["warmup_files"] = {"main.toml": cfg.to_toml(doc_for(warmup.get("contacts"), warmup.get("key_type")))}
@@ -47,6 +48,9 @@ def scenarios(quick):
     S.append((sched_req([("acc0", 0), ("acc0", 0)], key_type="ecdsa-p384", warmup={"key_type": "ecdsa-p256"}, name="s5b-pending-key-rollover"), 2))
     S.append((sched_req([("acc0", 0), ("acc0", 0)], warmup={}, after_warmup=[{"op": "ca_forget", "ca": 0}], name="s5c-ca-forgot-registered-account"), 2))
     S.append((sched_req([("acc0", 0), ("acc0", 0), ("acc1", 0)], accounts=("acc0", "acc1"), name="s6-three-certificates"), 1))
+    # pending authorizations: the challenge path (proof from the account key, challenge POST, polling) is part of the schedule
+    S.append((sched_req([("acc0", 0), ("acc0", 0)], pending=True, name="s1p-same-account-same-endpoint-pending-authz"), 2))
+    S.append((sched_req([("acc0", 0), ("acc0", 1)], n_ca=2, pending=True, name="s2p-same-account-two-endpoints-pending-authz"), 2))
     S.append((sched_req([("acc0", 0), ("acc0", 1)], n_ca=2, key_type="ecdsa-p384", contacts=["new@example.org"], warmup={"key_type": "ecdsa-p256", "contacts": ["old@example.org"]},
                         name="s2b-two-endpoints-pending-key-and-contact-change"), 2))
     if not quick:
@@ -61,6 +65,10 @@ def scenarios(quick):
                 seen.add(canon)
                 S.append((sched_req(list(certs), n_ca=2, accounts=("acc0", "acc1"), name="s7-%s" % "".join("%s%d" % (a[-1], e) for a, e in certs)), 2))
         S = [(r, b + 1 if r["meta"]["scenario"].startswith(("s1", "s2", "s3", "s4", "s5")) else b) for r, b in S]
+        # larger populations (deviation bound 1 only: the number of schedules grows with the square of the tasks)
+        S.append((sched_req([("acc0", 0), ("acc0", 0), ("acc1", 0), ("acc0", 1)], n_ca=2, accounts=("acc0", "acc1"), name="s8-four-certificates"), 1))
+        S.append((sched_req([("acc0", 0), ("acc0", 1), ("acc1", 0), ("acc1", 1), ("acc2", 2), ("acc0", 2)], n_ca=3, accounts=("acc0", "acc1", "acc2"), name="s9-six-certificates"), 1))
+        S.append((sched_req([("acc%d" % (i % 3), i % 3 if i < 6 else 0) for i in range(8)], n_ca=3, accounts=("acc0", "acc1", "acc2"), name="s10-eight-certificates"), 1))
     return S
 
 
@@ -184,7 +192,7 @@ def run(ctx):
                 res.violation(oracle, sig, ex, ob, replay=r)
 
         ntasks = len(base["meta"]["certs"])
-        stateful_here = (ntasks == 2 and (not ctx.quick or name.startswith(("s1", "s2-", "s3", "s4", "s5c")))) or (ntasks > 2 and not ctx.quick)
+        stateful_here = (ntasks == 2 and (not ctx.quick or name.startswith(("s1-", "s1p", "s2-", "s2p", "s3", "s5c")))) or (ntasks == 3 and not ctx.quick)
         if ctx.quick and stateful_here:
             bound = 1  # the exhaustive search below subsumes the deviation-bounded one; keep bound 1 as a cross-check
         st = explore(ctx.pool, base, bound, on_exec)
@@ -202,7 +210,7 @@ def run(ctx):
     res.assumptions = ["the lock wrapper waits by retrying try_read/try_write after each release instead of queueing in async-lock's fair queue; the scheduler explores every acquisition order, a superset of what the queue allows",
                        "invisible steps (file I/O on a certificate's own files, TCP connect, hook children) are run to completion between visible points: they touch nothing another task can observe",
                        "runtime worker threads only decide when a response or file operation completes; the scheduler enumerates exactly that order, so worker counts add no behaviour",
-                       "authorizations are served valid to keep schedules short (about 24 visible points per task)",
+                       "authorizations are served valid to keep schedules short (about 24 visible points per task), except in the two *-pending-authz scenarios, where the challenge path is scheduled too",
                        "state matching in the exhaustive search: a task's future depends on its own operation trace (which records every response kind and status it saw), on the lock holders (a function of the traces) and on CA/account state that the traces determine up to renaming of nonces, order numbers and key bytes, none of which is branched on"]
     return res
 
